@@ -9,7 +9,7 @@ from ..harness import Violation
 ID = "C01"
 LEVEL = "exploration"
 RULE = ("Hypothesis-generated (output bytes, partition into WRTE payloads, operation, decode flag, earlier operations, "
-        "remote ids, eager/duplicate CLSE, abandoned earlier stream, read-fragmentation tape, transport flavour, API); "
+        "remote ids, eager/duplicate CLSE, abandoned earlier stream, earlier OPEN answered only after its caller timed out, read-fragmentation tape, transport flavour, API); "
         "oracle = the simulator's per-stream record of delivered payloads. Non-trivial: >=2 chunks, or a multi-byte UTF-8 "
         "sequence split across chunks, or stale traffic of another stream, or fragmented reads. Distinct = distinct case hash.")
 ASSUMPTIONS = ["device simulator is a faithful adbd (stop-and-wait, ids, CLSE rules)",
@@ -49,10 +49,16 @@ def cases(draw):
     npre = draw(st.integers(0, 3))
     pre = []
     services = {}
+    slow = {}
     for i in range(npre):
-        kind = draw(st.sampled_from(["shell", "abandon", "stat"]))
+        kind = draw(st.sampled_from(["shell", "abandon", "stat", "slow-open"]))
         if kind == "stat":
             pre.append({"op": "stat", "path": "/pre%d" % i})
+        elif kind == "slow-open":
+            # a service that answers its OPEN only after the caller's read timeout: the call fails, the late answer arrives during later operations
+            services[("shell:slow%d" % i).encode()] = [b"<late-%d>" % i]
+            slow[("shell:slow%d" % i).encode()] = draw(st.sampled_from([0.5, 0.8, 3.0]))
+            pre.append({"op": "shell", "cmd": "slow%d" % i, "decode": False, "read_timeout_s": 0.3, "transport_timeout_s": 0.1})
         else:
             marker = bytes([0x01 + i]) * draw(st.integers(1, 5))   # control bytes never drawn for the target
             n = draw(st.integers(0, 3)) if kind == "shell" else draw(st.integers(2, 4))
@@ -73,7 +79,7 @@ def cases(draw):
     return {
         "api": draw(st.sampled_from(["sync", "async"])),
         "device": {"services": services, "rids": draw(sc.rid_list()), "eager_clse": draw(st.lists(st.booleans(), max_size=4)),
-                   "dup_clse": draw(st.booleans())},
+                   "dup_clse": draw(st.booleans()), "open_delay": slow},
         "dev_tape": draw(sc.dev_tape(20)),
         "transport": {"flavour": draw(sc.flavour()), "frag": frag},
         "connect": {},
@@ -102,7 +108,7 @@ def check_case(case):
         return v, info
     # the target's stream is the last OPEN
     s = out.sim.streams[-1] if out.sim.streams else None
-    dest = [k for k in case["device"]["services"] if not k.startswith(b"shell:pre")][0]
+    dest = [k for k in case["device"]["services"] if not k.startswith(b"shell:pre") and not k.startswith(b"shell:slow")][0]
     scripted = case["device"]["services"][dest]
     if s is None or s.dest != dest:
         return Violation("target-stream-not-opened", "streams=%r" % [x.dest for x in out.sim.streams]), info
@@ -134,6 +140,8 @@ def check_case(case):
         info["classes"].append("fragmented-reads")
     if any(o.get("take") for o in case["ops"]):
         info["classes"].append("abandoned-stream-traffic")
+    if case["device"].get("open_delay"):
+        info["classes"].append("late-open-answer")
     if decode:
         info["classes"].append("decode")
     if any(len(c) >= 4095 for c in scripted):
